@@ -15,7 +15,7 @@ func init() {
 	register(&Rule{ID: "E-SCOPE-THREAD", Props: []string{"C19", "C02", "C01", "C18", "C17"}, Floor: 54,
 		Doc: "every argument of type *variableScope in the evaluator is the enclosing function's own scope parameter, except the single child scope created by the let case, which is passed only to the evaluation of the let body; bindings are evaluated with the outer scope and the current node; Evaluate starts with the nil scope; and the current-node argument of the let evaluations is the enclosing current node",
 		Run: ruleEScopeThread})
-	register(&Rule{ID: "E-SCOPE-CHAIN", Props: []string{"C19", "C01"}, Floor: 1,
+	register(&Rule{ID: "E-SCOPE-CHAIN", Props: []string{"C19", "C01", "C08", "C18", "C03", "C09"}, Floor: 1,
 		Doc: "variableScope.get decides presence with a comma-ok lookup in its own map before consulting the parent, and only on the not-found edge; variableScope.new links parent to the receiver and stores the given map",
 		Run: ruleEScopeChain})
 }
